@@ -17,7 +17,7 @@ MANIFEST = dict(
     note="Modelled, not verified: Python isinstance dispatch; str * int.",
     technique="Lean 4 proof by mutual structural induction + differential correspondence check (exact string)",
 )
-PROP_FILES = ["HtmlVerif/Props/C05.lean", "HtmlVerif/Props/ConstsRender.lean"]
+PROP_FILES = ["HtmlVerif/Props/C05.lean", "HtmlVerif/Props/ConstsRender.lean", "HtmlVerif/Props/SrcRender.lean"]
 
 
 def no_ws(n) -> bool:
@@ -61,5 +61,6 @@ def run(tier: str) -> int:
     for l, im in histories.render_history_cases(ck.rng, ck.budget(1500, 20000), all_fns=fns):
         ck.add(l, im, nontrivial=True, tag="render_after_edits")
     ck.exhaustive_scopes.append({"scope": "render – edit in place through the public API – render again histories (stale-state detection)", "exhaustive": False})
+    ck.add_src(['Tag_get_html_string', 'TagList_get_html_string'], quick=250, thorough=2500)
     ck.correspond(holds=True)
     return ck.finish()
